@@ -671,20 +671,22 @@ Proof.
     inversion H; subst. apply keeps_app; [eapply step_keeps; eauto | eapply IH; eauto].
 Qed.
 
-Theorem creates_in_restricted_dir : forall v h, creates_restricted None (sys_trace v h) = true.
+Theorem creates_in_restricted_dir : forall v predir h,
+  creates_restricted (init_dir predir) (sys_trace v predir h) = true.
 Proof.
-  intros v h. unfold sys_trace, run_all.
-  destruct (boot [] false) as [[st0 o0] s0] eqn:Eb. destruct (run_from v st0 h) as [o s] eqn:Er. simpl.
-  rewrite (boot_trace _ _ _ _ _ Eb). rewrite creates_restricted_app. simpl.
-  destruct (run_from_keeps _ _ _ _ _ Er (Some (true, 448%N)) eq_refl) as [A _]. exact A.
+  intros v predir h. unfold sys_trace, run_all.
+  destruct (boot [] predir) as [[st0 o0] s0] eqn:Eb. destruct (run_from v st0 h) as [o s] eqn:Er. simpl.
+  rewrite (boot_trace _ _ _ _ _ Eb). rewrite creates_restricted_app.
+  destruct (run_from_keeps _ _ _ _ _ Er (Some (true, 448%N)) eq_refl) as [A _].
+  destruct predir; simpl; exact A.
 Qed.
 
 (* Prop form: at every creation inside the key directory, the directory has been chown'ed to
    root:root and chmod'ed to 0o700 (and nothing undid that) *)
-Theorem dir_restricted_at_create : forall v h pre c post,
-  sys_trace v h = pre ++ Create c :: post -> restricted (dir_after pre) = true.
+Theorem dir_restricted_at_create : forall v predir h pre c post,
+  sys_trace v predir h = pre ++ Create c :: post -> restricted (dir_after predir pre) = true.
 Proof.
-  intros v h pre c post H. pose proof (creates_in_restricted_dir v h) as R. rewrite H in R.
+  intros v predir h pre c post H. pose proof (creates_in_restricted_dir v predir h) as R. rewrite H in R.
   rewrite creates_restricted_app in R. apply andb_true_iff in R. destruct R as [_ R].
   simpl in R. apply andb_true_iff in R. destruct R as [R _]. exact R.
 Qed.
@@ -703,29 +705,34 @@ Proof.
   - left. destruct d as [[? ?]|]; exact A.
 Qed.
 
-(* DESIGN form: the chmod 0o700 of the key directory precedes the first creation in it *)
-Theorem dir_restricted_first : forall v h pre c post,
-  sys_trace v h = pre ++ Create c :: post -> In (Chmod 448) pre /\ In (Chown 0 0) pre.
+Lemma owner_needs_chown : forall tr d,
+  (match fold_left sys_step tr d with Some (true, _) => true | _ => false end) = true ->
+  (match d with Some (true, _) => true | _ => false end) = true \/ In (Chown 0 0) tr.
 Proof.
-  intros v h pre c post H. pose proof (dir_restricted_at_create v h pre c post H) as R.
-  unfold dir_after in R. split.
-  - assert (M : mode_is_700 (fold_left sys_step pre None) = true).
-    { destruct (fold_left sys_step pre None) as [[c0 m0]|]; simpl in *; [destruct c0; auto; discriminate | discriminate]. }
-    destruct (mode_700_needs_chmod _ _ M) as [A|A]; [discriminate | exact A].
-  - (* the owner flag can only have been set by a chown root:root *)
-    assert (G : forall tr d, (match fold_left sys_step tr d with Some (true, _) => true | _ => false end) = true ->
-                (match d with Some (true, _) => true | _ => false end) = true \/ In (Chown 0 0) tr).
-    { induction tr as [|e tr IH]; intros d H0; simpl in *; auto.
-      destruct (IH _ H0) as [A|A]; [|right; right; exact A].
-      destruct e as [|u g|m|c1]; simpl in A.
-      - discriminate.
-      - destruct d as [[c0 m0]|]; simpl in *; auto.
-        destruct (N.eqb u 0) eqn:Eu; destruct (N.eqb g 0) eqn:Eg; simpl in A; try discriminate.
-        apply N.eqb_eq in Eu, Eg; subst. right; left; reflexivity.
-      - destruct d as [[c0 m0]|]; simpl in *; auto.
-      - left. destruct d as [[? ?]|]; exact A. }
-    destruct (G pre None) as [A|A]; [|discriminate|exact A].
-    destruct (fold_left sys_step pre None) as [[c0 m0]|]; simpl in *; [destruct c0; auto; discriminate | discriminate].
+  induction tr as [|e tr IH]; intros d H0; simpl in *; auto.
+  destruct (IH _ H0) as [A|A]; [|right; right; exact A].
+  destruct e as [|u g|m|c1]; simpl in A.
+  - discriminate.
+  - destruct d as [[c0 m0]|]; simpl in *; auto.
+    destruct (N.eqb u 0) eqn:Eu; destruct (N.eqb g 0) eqn:Eg; simpl in A; try discriminate.
+    apply N.eqb_eq in Eu, Eg; subst. right; left; reflexivity.
+  - destruct d as [[c0 m0]|]; simpl in *; auto.
+  - left. destruct d as [[? ?]|]; exact A.
+Qed.
+
+(* DESIGN form: the chmod 0o700 (and the chown root:root) of the key directory precede the first
+   creation in it -- also when the directory existed, unrestricted, before the agent first ran *)
+Theorem dir_restricted_first : forall v predir h pre c post,
+  sys_trace v predir h = pre ++ Create c :: post -> In (Chmod 448) pre /\ In (Chown 0 0) pre.
+Proof.
+  intros v predir h pre c post H. pose proof (dir_restricted_at_create v predir h pre c post H) as R.
+  unfold dir_after in R.
+  assert (M : mode_is_700 (fold_left sys_step pre (init_dir predir)) = true
+              /\ (match fold_left sys_step pre (init_dir predir) with Some (true, _) => true | _ => false end) = true).
+  { destruct (fold_left sys_step pre (init_dir predir)) as [[c0 m0]|]; simpl in *; [destruct c0; auto; discriminate | discriminate]. }
+  destruct M as [M1 M2]. split.
+  - destruct (mode_700_needs_chmod _ _ M1) as [A|A]; [destruct predir; discriminate | exact A].
+  - destruct (owner_needs_chown _ _ M2) as [A|A]; [destruct predir; discriminate | exact A].
 Qed.
 
 (* non-vacuity *)
@@ -735,8 +742,10 @@ Lemma nonvacuous_examples :
                        Poll (SOk false (Some 2%N) 1) KErr AOk; Restart; Poll (SOk true (Some 2%N) 1) KErr AOk; ClientRequest;
                        StatusTick; ProvisionQuery true; ProvisionTimeup])
     = [(KeyFile, [1%N; 2%N])]
-  /\ map sys_code (sys_trace unfixed [Poll (SOk true None 1) (KOk 1 true) AOk; ProvisionTimeup; Restart; Poll (SOk true None 1) (KOk 2 true) AOk])
+  /\ map sys_code (sys_trace unfixed false [Poll (SOk true None 1) (KOk 1 true) AOk; ProvisionTimeup; Restart; Poll (SOk true None 1) (KOk 2 true) AOk])
     = [(0, 0); (1, 0); (2, 448); (3, 0); (3, 1); (3, 1); (1, 0); (2, 448); (3, 0)]%N
+  /\ map sys_code (sys_trace unfixed true [Poll (SOk true None 1) (KOk 1 true) AOk])
+    = [(1, 0); (2, 448); (3, 0)]%N
   /\ vector (run repaired witness_not_hex) = []
   /\ vector (run repaired witness_body_malformed) = [].
 Proof. vm_compute. repeat split. Qed.
